@@ -110,9 +110,11 @@ let run () =
              | _ -> failwith ("bad node " ^ t)) in
         let (d, _) = nodes (if tree = "-" then [] else String.split_on_char ';' tree) in
         let text = aconf_render d in
+        (* wf = inside the hypotheses of C20_aconf_accepts_iff; deep = well-formed but nested 256 or more deep *)
+        let wf = if not (wf_nodes maxline d) then "nwf" else if int_of_n (adepths d) >= 256 then "deep" else "wf" in
         (match aconf_srun cb (parse_table tbl) (n_of_int (int_of_string flags)) (def <> "0") d with
-         | SOk (c, l, evs) -> print_endline (Printf.sprintf "%s %d - -%s" (hex_of_bytes text) (int_of_n c) (String.concat "" (List.rev_map event_str evs)))
-         | SErr (l, e, evs) -> print_endline (Printf.sprintf "%s -1 %d %s%s" (hex_of_bytes text) (int_of_n l) (hexs (errmsg e)) (String.concat "" (List.rev_map event_str evs))))
+         | SOk (c, l, evs) -> print_endline (Printf.sprintf "%s %s %d - -%s" wf (hex_of_bytes text) (int_of_n c) (String.concat "" (List.rev_map event_str evs)))
+         | SErr (l, e, evs) -> print_endline (Printf.sprintf "%s %s -1 %d %s%s" wf (hex_of_bytes text) (int_of_n l) (hexs (errmsg e)) (String.concat "" (List.rev_map event_str evs))))
     | ["numspec"; hd] ->   (* number/bool syntax: model result and grammar result *)
         let d = bytes_of_hex hd in
         print_endline (Printf.sprintf "%d %s %d %s" (int_of_n (is_str_number d))
